@@ -1,7 +1,7 @@
 """C17 - no request is evaluated before the client's identity is established."""
 import ast
 
-from ..astutil import (walk_flat, U, dotted, get_class, get_method, get_function, walk_local, is_self_attr, call_name, short,
+from ..astutil import (walk_flat, U, dotted, get_class, get_method, get_function, methods, walk_local, is_self_attr, call_name, short,
                        enum_member, params)
 from ..cfg import CFG, calls_at
 from ..dataflow import ReachingDefs
@@ -126,6 +126,52 @@ def check_call(ctx, src, g, rd, prn, prc, an, ac, tag):
 
 
 
+
+def session_connector_memo(cls, fn, rd, expr):
+    """expr reads self.<table>.get(k) / self.<table>[k] where <table> is created empty in the session's own __init__ (not handed in) and everything the
+    class stores into it is an auth.<...> connector built on the spot"""
+    tab = None
+    if isinstance(expr, ast.Call) and isinstance(expr.func, ast.Attribute) and expr.func.attr == 'get' and is_self_attr(expr.func.value):
+        tab = expr.func.value.attr
+    elif isinstance(expr, ast.Subscript) and is_self_attr(expr.value):
+        tab = expr.value.attr
+    if tab is None:
+        return False
+    init = methods(cls).get('__init__')
+    if init is None:
+        return False
+    inits = [a.value for a in walk_local(init) if isinstance(a, ast.Assign) and len(a.targets) == 1 and is_self_attr(a.targets[0], tab)]
+    if len(inits) != 1 or not ((isinstance(inits[0], ast.Dict) and not inits[0].keys) or (isinstance(inits[0], ast.Call) and call_name(inits[0]) == 'dict' and not inits[0].args and not inits[0].keywords)):
+        return False
+    from ..cfg import CFG as _CFG
+    from ..dataflow import ReachingDefs as _RD, node_of_expr as _noe
+    n_st = 0
+    for m_ in methods(cls).values():
+        if m_ is init:
+            continue
+        g_ = rd_ = None
+        for a in walk_local(m_):
+            stores = isinstance(a, ast.Assign) and len(a.targets) == 1 and isinstance(a.targets[0], ast.Subscript) and is_self_attr(a.targets[0].value, tab)
+            rebinding = isinstance(a, ast.Assign) and any(is_self_attr(t_, tab) for t_ in a.targets)
+            mutating = isinstance(a, ast.Expr) and isinstance(a.value, ast.Call) and isinstance(a.value.func, ast.Attribute) and is_self_attr(a.value.func.value, tab) and a.value.func.attr in ('update', 'setdefault', 'pop', 'clear')
+            if rebinding or mutating:
+                return False
+            if not stores:
+                continue
+            n_st += 1
+            v = a.value
+            if isinstance(v, ast.Name):
+                if g_ is None:
+                    g_ = _CFG(m_)
+                    rd_ = _RD(g_)
+                nd = _noe(g_, a)
+                vals = rd_.values(nd, v.id) if nd is not None else []
+            else:
+                vals = [v]
+            if not vals or not all(isinstance(x, ast.Call) and (call_name(x) or '').startswith('auth.') and (call_name(x) or '').endswith('Connector') for x in vals):
+                return False
+    return n_st > 0
+
 def run(ctx):
     src = ctx.src
     st = src.tree(SESSION)
@@ -207,6 +253,9 @@ def run(ctx):
                 c = vals[0]
                 recv = c.func.value
                 rv = ard.values(ard.g.nodes[[d for d in ard.reaching(pn, v.id)][0][2].id], recv.id) if isinstance(recv, ast.Name) else []
+                # a connector kept in a per-session memo table (self.<table>[url] = auth.<X>Connector(url), table created empty by this session) is the connector it was built as
+                memo_reads = [x for x in rv if session_connector_memo(sc, af, ard, x)]
+                rv = [x for x in rv if x not in memo_reads]
                 plug = [x for x in rv if isinstance(x, ast.Call) and (call_name(x) or '').startswith('auth.')]
                 first = c.args[0] if c.args else None
                 for k in c.keywords:
